@@ -95,7 +95,7 @@ def body_text(t, s):
     if (n, ar) in ((',', 2), (';', 2), ('|', 2), ('->', 2)):
         return "(%s %s %s)" % (body_text(args[0], s), n, body_text(args[1], s))
     if (n, ar) == ('\\+', 1):
-        return "\\+ (%s)" % body_text(args[0], s)
+        return "\\+(%s)" % body_text(args[0], s)
     if (n, ar) == ('{}', 1):
         return "{ %s }" % terms.text(args[0])
     if (n, ar) == ('phrase', 1):
@@ -169,46 +169,20 @@ class Case(Prog):
         self.inv = {v: k for k, v in mp.items()}
         self.text = "\n".join(rule_text(r, mp, as_str) for r in vec["gram"]) + "\n"
         self.q = rn_goal(terms.from_tla(vec["q"]), mp)
-        self.qtext = goal_text(self.q, as_str) + "."
         self.qv = [terms.from_tla(v)[1] for v in vec["qv"]]
+        self.qtext = "%s, Ans_ = %s." % (goal_text(self.q, as_str), terms.text(('c', 'ans', tuple(('v', n) for n in self.qv)) if self.qv else ('a', 'ans')))
         self.as_str = as_str
 
     def got_answer(self, a):
-        """harness answer -> canonical ('c','ans',...) tuple over self.qv.  A binding Var = OtherVar in a LeafAnswer
-        identifies the two names (the other bindings may mention either of them): aliases are resolved first."""
-        if a == "T":
-            b = {}
-        elif isinstance(a, dict) and "b" in a:
-            b = a["b"]
-        else:
+        """harness answer -> canonical ('c','ans',...) tuple over self.qv.  The query ends in Ans_ = ans(V1,..,Vn): the
+        LeafAnswer projection reports only one equation when three or more query variables are aliased to each other
+        (`X = E1, X = E2.` is answered X = E2), so the bindings are read from one term that shows all sharing."""
+        if not (isinstance(a, dict) and "b" in a and "Ans_" in a["b"]):
             return None
-        conv = {k: unrename_term(terms.from_h(v), self.inv) for k, v in b.items()}
-        alias = {}
-
-        def find(x):
-            while x in alias:
-                x = alias[x]
-            return x
-        for k in sorted(conv):
-            v = conv[k]
-            if v[0] == 'v':
-                rk, rv = find(k), find(v[1])
-                if rk != rv:
-                    alias[rk] = rv
-
-        def subst(t):
-            if t[0] == 'v':
-                return ('v', find(t[1]))
-            if t[0] == 'c':
-                return ('c', t[1], tuple(subst(x) for x in t[2]))
-            return t
-        vals = []
-        for name in self.qv:
-            if name in conv and conv[name][0] != 'v':
-                vals.append(subst(conv[name]))
-            else:
-                vals.append(('v', find(name)))
-        return ('c', 'ans', tuple(vals))
+        t = unrename_term(terms.from_h(a["b"]["Ans_"]), self.inv)
+        if t == ('a', 'ans'):
+            return ('c', 'ans', ())
+        return t
 
     def body(self):
         """the grammar body given to phrase in the query"""
@@ -355,6 +329,12 @@ def run(tier):
                 "with list and with double-quoted-string terminals. distinct = kind x query form x syntax x set of body constructs x "
                 "outcome kind" % (3 if quick else 4))
     workers = 8 if quick else 14
+    try:
+        cap = int(os.environ.get("VERIF_MAX_WORKERS", "0"))      # development on a shared box
+    except ValueError:
+        cap = 0
+    if cap > 0:
+        workers = min(workers, cap)
     nvec = 0
     ngram = 0
     chunks = [(0, 1)] if quick else [(k, 8) for k in range(8)]
